@@ -25,6 +25,7 @@ def run(prog, report, tier):
     meshrules.check_cross(prog, report)
     meshrules.check_inherit(prog, report)
     meshrules.check_children(prog, report)
+    meshrules.check_element_geometry(prog, report)
     meshrules.check_leafbook(prog, report)
     meshrules.check_closure(prog, report)
     meshrules.check_vreuse(prog, report)
